@@ -94,7 +94,7 @@ def structures(tier):
     return out
 
 
-def to_spec(struct, order, pal, volts, phased):
+def to_spec(struct, order, pal, volts, phased, pol=1):
     L = letters(pal)
     V = PALETTES[pal]["V"]
     lk = {"R": "RL", "C": "CVc", "I": "IL", "P": "PLx", "M": "MX"}
@@ -103,11 +103,13 @@ def to_spec(struct, order, pal, volts, phased):
         l, ps = struct[n]
         if l == "S":
             j = int(n[1:])
-            comps.append(dict(n=n, k="Source", a=dict(vo=_r(volts[j - 1] * V * (1 + 0.11 * j)), rs=_r(0.05 * j)), p=[], g="", r="",
+            comps.append(dict(n=n, k="Source", a=dict(vo=_r(pol * volts[j - 1] * V * (1 + 0.11 * j)), rs=_r(0.05 * j) if pol > 0 else 0.0), p=[], g="", r="",
                               pc=(["a"] if (phased and j == 1) else None), lim=None))
         else:
             kind, args = L[lk[l]]
             a = copy.deepcopy(args)
+            if "vo" in a:
+                a["vo"] = a["vo"] * pol
             if l == "M":
                 a["rs"] = [_r(args["rs"]), _r(args["rs"] * 2.5)]
             c = dict(n=n, k=kind, a=a, p=list(ps), g="", r="", pc=None, lim=None)
@@ -221,7 +223,7 @@ def check_case(case):
     orders = linear_extensions(struct)
     ref = None
     for o in orders:
-        spec = to_spec(struct, o, case["pal"], case["volts"], case["phased"])
+        spec = to_spec(struct, o, case["pal"], case["volts"], case["phased"], case.get("pol", 1))
         s = build(spec)
         res.stats["transitions"] += len(o) + 1
         try:
@@ -262,6 +264,8 @@ def gen_cases(tier):
         for volts in pats:
             for phased, en in ((False, False), (True, True)) if tier == "quick" else ((False, False), (False, True), (True, False), (True, True)):
                 yield dict(struct={k: [v[0], list(v[1])] for k, v in st.items()}, pal=pal, volts=list(volts), phased=phased, energy=en)
+            if "M" in st and len(st) <= 6:  # negative rails through the mux
+                yield dict(struct={k: [v[0], list(v[1])] for k, v in st.items()}, pal=pal, volts=list(volts), phased=False, energy=False, pol=-1)
 
 
 def replay(doc):
